@@ -40,6 +40,7 @@ def run(ctx):
             ctx.fail("WSDL of the family does not load", {"iface": ident, "rendering": rident}, repr(e), "a client")
             continue
         env = SM.env_json(I)
+        client_np = None
         for op in I["ops"]:
             for case in range(cases):
                 args = K.args_of(ident, I, op, case)
@@ -50,6 +51,15 @@ def run(ctx):
                     ctx.case(common.canon(meta), True)
                     ctx.dist["style=" + op["style"]] += 1
                     one(ctx, client, I, op, args, mode, meta, env, reqs, metas)
+                if case == 0:
+                    # the same message without prefixes (default-namespace style): still the message the WSDL prescribes
+                    if client_np is None:
+                        client_np = K.make_client(docs, prefixes=False)
+                    meta = {"iface": ident, "rendering": rident, "op": op["name"], "case": case, "mode": "object",
+                            "prefixes": False}
+                    ctx.case(common.canon(meta), True)
+                    ctx.dist["prefixes=False"] += 1
+                    one(ctx, client_np, I, op, args, "object", meta, env, [], [])
     defaults_and_untyped(ctx)
     answers = ctx.driver.ask(reqs)
     for ans, (meta, actual, spec) in zip(answers, metas):
@@ -97,6 +107,32 @@ def reserved_attr_names():
     ok = (xt is not None and list(xt) == [wsdlkit.TNS, "D"] and o["attrs"].get((None, "type")) == "home"
           and o["attrs"].get((None, "nil")) == "zz" and b["attrs"].get((xmlread.XSI, "nil")) in ("true", "1"))
     return None if ok else env.decode("utf-8")[-400:]
+
+
+def two_port_wsdl():
+    parts = []
+    for n, members in (("1", '<xsd:element name="id" type="xsd:string"/><xsd:element name="note" type="xsd:string"/>'),
+                       ("2", '<xsd:element name="key" type="xsd:string"/><xsd:element name="flag" type="xsd:boolean"/>')):
+        parts.append('<xsd:schema targetNamespace="urn:v%s" elementFormDefault="unqualified"><xsd:element name="submit">'
+                     '<xsd:complexType><xsd:sequence>%s</xsd:sequence></xsd:complexType></xsd:element></xsd:schema>'
+                     % (n, members))
+    w = ('<?xml version="1.0"?><wsdl:definitions targetNamespace="urn:w" xmlns:wsdl="http://schemas.xmlsoap.org/wsdl/" '
+         'xmlns:w="urn:w" xmlns:v1="urn:v1" xmlns:v2="urn:v2" xmlns:soap="http://schemas.xmlsoap.org/wsdl/soap/" '
+         'xmlns:xsd="http://www.w3.org/2001/XMLSchema"><wsdl:types>%s</wsdl:types>' % "".join(parts))
+    for n in ("1", "2"):
+        w += ('<wsdl:message name="m%s"><wsdl:part name="parameters" element="v%s:submit"/></wsdl:message>' % (n, n))
+    for n in ("1", "2"):
+        w += ('<wsdl:portType name="PT%s"><wsdl:operation name="submit"><wsdl:input message="w:m%s"/></wsdl:operation>'
+              '</wsdl:portType>' % (n, n))
+    for n in ("1", "2"):
+        w += ('<wsdl:binding name="B%s" type="w:PT%s"><soap:binding style="document" '
+              'transport="http://schemas.xmlsoap.org/soap/http"/><wsdl:operation name="submit"><soap:operation '
+              'soapAction="s%s"/><wsdl:input><soap:body use="literal"/></wsdl:input></wsdl:operation></wsdl:binding>'
+              % (n, n, n))
+    w += ('<wsdl:service name="S"><wsdl:port name="one" binding="w:B1"><soap:address location="http://x.invalid/1"/>'
+          '</wsdl:port><wsdl:port name="two" binding="w:B2"><soap:address location="http://x.invalid/2"/></wsdl:port>'
+          '</wsdl:service></wsdl:definitions>')
+    return w.encode()
 
 
 def defaults_and_untyped(ctx):
@@ -165,6 +201,46 @@ def defaults_and_untyped(ctx):
                  "xsi:type / xsi:nil", {"stream": "reserved-attribute-names"}, reserved_attr_names(),
                  "o: xsi:type=D, type='home', nil='zz'; b: xsi:nil")
     ctx.case(("reserved-attribute-names",), True)
+    # (d) simple types derived by restriction, one and two levels deep: the text is the base type's lexical form
+    import datetime
+    rschema = ('<xsd:simpleType name="Flag"><xsd:restriction base="xsd:boolean"/></xsd:simpleType>'
+               '<xsd:simpleType name="StrictFlag"><xsd:restriction base="x:Flag"/></xsd:simpleType>'
+               '<xsd:simpleType name="When"><xsd:restriction base="xsd:dateTime"/></xsd:simpleType>'
+               '<xsd:simpleType name="Later"><xsd:restriction base="x:When"/></xsd:simpleType>'
+               '<xsd:element name="f"><xsd:complexType><xsd:sequence><xsd:element name="a" type="x:Flag"/>'
+               '<xsd:element name="b" type="x:StrictFlag"/><xsd:element name="c" type="x:When"/>'
+               '<xsd:element name="d" type="x:Later"/></xsd:sequence></xsd:complexType></xsd:element>')
+    rc = wsdlkit.client(wsdlkit.wsdl_doc(rschema, "f", None), nosend=True)
+    when = datetime.datetime(2001, 2, 3, 4, 5, 6)
+    meta = {"stream": "restricted-simple-types"}
+    ctx.case(common.canon(meta), True)
+    try:
+        env = wsdlkit.envelope_bytes(rc.service.f(True, False, when, when))
+        froot = xmlread.find1(xmlread.find1(xmlread.parse(env), "Body"), "f")
+        got = [ch.get("text") for ch in froot["children"]]
+    except Exception as e:
+        got = repr(e)
+    if got != ["true", "false", "2001-02-03T04:05:06", "2001-02-03T04:05:06"]:
+        ctx.fail("a value of a simple type derived by restriction is not written in the XSD lexical form", meta, got,
+                 ["true", "false", "2001-02-03T04:05:06", "2001-02-03T04:05:06"])
+    # (e) two ports of one service whose port types define a same-named operation with different inputs: a call
+    #     through either port builds that port's message, whichever was used first
+    for order in (("one", "two"), ("two", "one"), ("two", "two", "one")):
+        c = wsdlkit.client(two_port_wsdl(), nosend=True)
+        for port in order:
+            meta = {"stream": "two-ports", "order": list(order), "port": port}
+            ctx.case(common.canon(meta), True)
+            try:
+                env = wsdlkit.envelope_bytes(c.service[port].submit("k", True))
+                b = xmlread.find1(xmlread.parse(env), "Body")
+                got = [list(b["children"][0]["name"])] + [[k["name"][1], k.get("text")] for k in b["children"][0]["children"]]
+            except Exception as e:
+                got = repr(e)
+            want = [["urn:v1", "submit"], ["id", "k"], ["note", "True"]] if port == "one" else \
+                [["urn:v2", "submit"], ["key", "k"], ["flag", "true"]]
+            if got != want:
+                ctx.fail("a call through one port builds the message of another port's same-named operation", meta,
+                         got, want)
     # (b) untyped leaves in rpc/encoded
     schema = ('<xsd:complexType name="S"><xsd:sequence><xsd:element name="v" type="xsd:anyType"/>'
               '<xsd:element name="w" type="xsd:anyType" minOccurs="0"/></xsd:sequence></xsd:complexType>')
